@@ -131,7 +131,8 @@ theorem lex_print (s : Lx) (g1 n g2 tl : Bytes) (hh : s.isHTML = true) (hb : s.b
     (hg1 : allWs g1) (hg2 : allWs g2) (hn : isName n)
     (hr : s.rest = [123, 123] ++ g1 ++ n ++ g2 ++ [125, 125] ++ tl) :
     ∃ t1 t2 t3 s3, Run s [t1, t2, t3] s3 ∧ key t1 = (.LBRACES, [123, 123]) ∧ key t2 = (.IDENT, n) ∧ key t3 = (.RBRACES, [125, 125]) ∧
-      s3.rest = tl ∧ s3.isHTML = true ∧ s3.braces = 0 ∧ s3.panicked = s.panicked ∧ s3.prev = 125 := by
+      s3.rest = tl ∧ s3.isHTML = true ∧ s3.braces = 0 ∧ s3.panicked = s.panicked ∧ s3.prev = 125 ∧
+      s3.isDirective = s.isDirective ∧ s3.parens = s.parens := by
   obtain ⟨⟨c, v, hcv, hc⟩, hall, hkw⟩ := hn
   have hnn : isName n := ⟨⟨c, v, hcv, hc⟩, hall, hkw⟩
   obtain ⟨_, _, _, _, _, _, _, _, _, _, q11, _, _, qws⟩ := identCh_not_special hc
@@ -202,7 +203,7 @@ theorem lex_print (s : Lx) (g1 n g2 tl : Bytes) (hh : s.isHTML = true) (hb : s.b
     rw [if_pos (by simp [hc3, hp3, hbr])]
   obtain ⟨e1, e2, e3⟩ := emit_after (codeStepDesc (skipWs s2)) [125, 125] tl (by simp) (by rw [hcs3]; simpa using j1) (by rw [hcs3]; rfl)
   refine ⟨(bracesToken s .LBRACES [123, 123]).1, (codeStepDesc (skipWs s1)).emit.1, (codeStepDesc (skipWs s2)).emit.1,
-    (codeStepDesc (skipWs s2)).emit.2, ?_, ?_, ?_, ?_, e1, ?_, ?_, ?_, ?_⟩
+    (codeStepDesc (skipWs s2)).emit.2, ?_, ?_, ?_, ?_, e1, ?_, ?_, ?_, ?_, ?_, ?_⟩
   · refine Run.cons _ _ _ _ _ step1 (by unfold bracesToken; rw [emit_ty]; decide) ?_
     refine Run.cons s1 s2 _ _ _ (by unfold nextStep; exact step2) (by unfold TokDesc.emit; rw [emit_ty, d2]; decide) ?_
     exact Run.cons s2 _ _ _ _ (by unfold nextStep; exact step3) (by unfold TokDesc.emit; rw [emit_ty, hcs3]; exact fun h => by cases h) (Run.nil _)
@@ -216,7 +217,14 @@ theorem lex_print (s : Lx) (g1 n g2 tl : Bytes) (hh : s.isHTML = true) (hb : s.b
     rw [mode_pan j2, mode_pan m2]
     have := congrArg (·.2.2.2.2) m1; simpa [mode] using this
   · rw [e3]; rfl
-
+  · rw [mode_dir e2, hcs3]
+    show (skipWs s2).isDirective = _
+    rw [mode_dir j2, mode_dir m2]
+    have := congrArg (·.2.1) m1; simpa [mode] using this
+  · rw [mode_parens e2, hcs3]
+    show (skipWs s2).parens = _
+    rw [mode_parens j2, mode_parens m2]
+    have := congrArg (·.2.2.1) m1; simpa [mode] using this
 
 /-! ### templates of text, comments and `{{ name }}` blocks -/
 
@@ -339,7 +347,7 @@ theorem lexAll_vitems : ∀ (items : List VItem), VItemsOK items → ∀ (s : Lx
   | .print g1 n g2 :: r, hok, s, fuel, hr, hh, hp, hb, hf => by
     obtain ⟨hg1, hg2, hn, hokr⟩ := hok
     obtain ⟨g, rfl⟩ : ∃ g, fuel = 3 + g := ⟨fuel - 3, by simp [vfuel] at hf; omega⟩
-    obtain ⟨t1, t2, t3, s3, hrun, k1, k2, k3, r3, h3, b3, p3, _⟩ := lex_print s g1 n g2 (vitemsSrc r) hh hb hg1 hg2 hn
+    obtain ⟨t1, t2, t3, s3, hrun, k1, k2, k3, r3, h3, b3, p3, _, _, _⟩ := lex_print s g1 n g2 (vitemsSrc r) hh hb hg1 hg2 hn
       (by rw [hr]; simp [vitemsSrc, VItem.src])
     obtain ⟨toks, e, sf, hl, hm, he, hel, hhf, hpf⟩ := lexAll_vitems r hokr s3 g r3 h3 (by rw [p3]; exact hp) b3
       (by simp [vfuel] at hf; omega)
